@@ -121,7 +121,7 @@ const TRANSFORM_TOKENS: &[&str] = &[
 ];
 
 pub fn shape_doc(kind: u8, n: usize, sel: u16) -> (String, String) {
-    let k = kind % 30;
+    let k = kind % 33;
     let rect = |v: &str| format!("<svg><rect xy=\"0\" wh=\"{}\"/></svg>", crate::sxml::escape_attr(v));
     let (name, doc): (&str, String) = match k {
         0 => ("expr.parens", rect(&format!("{{{{{}1{}}}}}", "(".repeat(n), ")".repeat(n)))),
@@ -320,6 +320,33 @@ pub fn shape_doc(kind: u8, n: usize, sel: u16) -> (String, String) {
             // var growth by self-concatenation inside a loop
             ("var.growth", format!("<svg><var s=\"ab\"/><loop count=\"{n}\"><var s=\"$s$s\"/></loop><text text=\"$s\"/></svg>"))
         }
+        30 => {
+            // every built-in function with hostile numeric arguments (NaN, infinities, huge, negative zero) at arities 0..4
+            const FUNS: &[&str] = &[
+                "abs", "ceil", "floor", "fract", "sign", "divmod", "sqrt", "log", "exp", "pow", "sin", "cos", "tan", "asin", "acos", "atan", "random", "randint", "min", "max", "sum", "product", "mean",
+                "clamp", "mix", "eq", "ne", "lt", "le", "gt", "ge", "if", "not", "and", "or", "xor", "swap", "r2p", "p2r", "select", "addv", "subv", "scalev", "head", "tail", "empty", "count", "in",
+                "split", "splitw", "trim", "join", "_",
+            ];
+            const ARGS: &[&str] = &["0/0", "1/0", "-1/0", "nan", "inf", "-inf", "1e38 * 10", "-0", "2147483648", "-2147483649", "1e-45", "'s'", "''", "16777217", "0.5", "-1"];
+            let f = FUNS[sel as usize % FUNS.len()];
+            let mut x = (sel as usize) * 2654435761 + n;
+            let arity = x % 5;
+            let mut args = Vec::new();
+            for _ in 0..arity {
+                x = x.wrapping_mul(6364136223846793005).wrapping_add(1442695040888963407);
+                args.push(ARGS[(x >> 33) % ARGS.len()]);
+            }
+            ("fn.hostile-args", format!("<svg><rect wh=\"3\" text=\"{{{{{f}({})}}}}\"/><rect xy=\"{{{{{f}({})}}}} 0\" wh=\"2\"/></svg>", args.join(", "), args.join(", ")))
+        }
+        31 => {
+            // recursion that amplifies a value at every level (reuse attributes are variables too)
+            let body = match sel % 3 {
+                0 => "<specs><g id=\"x\"><rect wh=\"1\" text=\"$a\"/><reuse href=\"#x\" a=\"$a$a\"/></g></specs><reuse href=\"#x\" a=\"ab\"/>",
+                1 => "<specs><g id=\"x\"><reuse href=\"#x\" a=\"$a$a$a\" b=\"$a\"/></g></specs><reuse href=\"#x\" a=\"abcdefgh\"/>",
+                _ => "<specs><g id=\"x\"><g v=\"$a$a\"><reuse href=\"#x\" a=\"$v$v\"/></g></g></specs><reuse href=\"#x\" a=\"ab\"/>",
+            };
+            ("reuse.amplify", format!("<svg>{body}</svg>"))
+        }
         _ => {
             let n = n.min(2000);
             let mut s = String::from("<svg><defaults>");
@@ -335,7 +362,7 @@ pub fn shape_doc(kind: u8, n: usize, sel: u16) -> (String, String) {
 
 fn fam_shapes(t: Tier) -> BoxedStrategy<Case> {
     let max_exp = if t == Tier::Quick { 16 } else { 20 };
-    (0u8..30, log_uniform(max_exp), any::<u16>(), gen::cfg_small_limits(), prop::bool::weighted(0.7))
+    (0u8..33, log_uniform(max_exp), any::<u16>(), gen::cfg_small_limits(), prop::bool::weighted(0.7))
         .prop_map(|(kind, n, sel, mut cfg, default_limits)| {
             if default_limits {
                 cfg.loop_limit = 1000;
@@ -534,7 +561,7 @@ impl Property for C01 {
     }
     fn rule(&self) -> String {
         "cases = (input bytes, config with limits <= defaults), executed in a sandboxed worker process on a fresh 2 MiB-stack thread through transform_stream and (if UTF-8) transform_str; \
-         families: DocGen documents with junk-token damage, 30 shape-parameter generators (size n log-uniform up to 2^17 quick / 2^21 thorough) for every recursive or scanning mechanism, byte-level mutants and splices of the repository corpus, \
+         families: DocGen documents with junk-token damage, 33 shape-parameter generators (size n log-uniform up to 2^17 quick / 2^21 thorough) for every recursive or scanning mechanism, byte-level mutants and splices of the repository corpus, \
          raw bytes and XML-ish token streams, corpus replays; plus a process-level phase running a deterministic subset through the real svgdx binary (file and stdin) and a live svgdx-server. \
          Oracle: the call returns Ok or Err - no panic (signature = panic file:line), no worker death (signal), no case exceeding the two-stage CPU budget (20 s, then 200 s alone); CLI exit status 0/1 not a signal; server 200/400 and alive afterwards. \
          Non-trivial = the input got past XML reading (Ok, or an error other than 'XML error'), or is a shape-parameter case; distinct by hash of (input, config)."
